@@ -97,8 +97,19 @@ def _gen_build(r, g, class_default):
                 else:
                     v = _sv(g.tok(t))
                 st['items'].append([dk, v])
-    fams = [r.choice(['call', 'call', 'bind', 'xrefcall', 'eval', 'fstr', 'import', 'rec', 'boxinc', 'chain', 'evalprobe'])
+    fams = [r.choice(['call', 'call', 'bind', 'xrefcall', 'eval', 'fstr', 'import', 'rec', 'boxinc', 'chain', 'evalprobe',
+                      'evalattr', 'aynscfg', 'reclist', 'recxref', 'inclist'])
             for _ in range(r.randrange(1, 5))]
+    # a mapping-valued data entry whose members have their own taint (read member-wise by evaluated code)
+    box_key = None
+    if any(f in ('evalattr',) for f in fams):
+        box_key = 'dbox'
+        t0 = stages[0]['taint']
+        q_taint = 'U' if r.random() < 0.5 else t0
+        q_val = ('!unsafe ' if q_taint == 'U' and t0 != 'U' else '') + _sv(g.tok(q_taint))
+        stages[0]['items'].append([box_key, '{p: ' + _sv(g.tok(t0)) + ', q: ' + q_val + '}'])
+        if r.random() < 0.5:
+            stages[0]['items'].append(['dbox_alias', '!xref dbox.p'])
     for fi, fam in enumerate(fams):
         key = f'{fam[0]}{fi}'
         first = r.randrange(n_stage)
@@ -151,6 +162,30 @@ def _gen_build(r, g, class_default):
             elif fam == 'evalprobe':
                 own = g.tok(t)
                 v = '!eval ' + emit.scalar_text(f"rec('{own}', {dk})")
+            elif fam == 'evalattr':
+                own = g.tok(t)
+                member = r.choice(['dbox.q', "dbox['q']", 'dbox.p'])
+                first = 'dbox_alias, ' if any(k == 'dbox_alias' for k, _ in stages[0]['items']) and r.random() < 0.7 else ''
+                v = '!eval ' + emit.scalar_text(f"rec('{own}', {first}{member})")
+            elif fam == 'aynscfg':
+                own = g.tok(t)
+                v = '!eval ' + emit.scalar_text(f"rec('{own}', ayns.cfg.{dk})")
+            elif fam == 'reclist':
+                f1, f2 = g.fname('rec'), g.fname('rec')
+                g.files[f1] = '{c: ' + _call(g, t, 'call') + '}\n'
+                g.files[f2] = '{c2: ' + _call(g, 'U', 'call') + ', v: ' + _sv(g.tok('U')) + '}\n'
+                v = f'!rec [{f1}, !unsafe {f2}]'
+            elif fam == 'recxref':
+                fn = g.fname('rec')
+                name_taint = 'U' if r.random() < 0.6 else t
+                g.files[fn] = '{c: ' + _call(g, name_taint, 'call') + '}\n'
+                st['items'].append([key + 'n', ('!unsafe ' if name_taint == 'U' and t != 'U' else '') + fn])
+                v = f'!rec [!xref {key}n]'
+            elif fam == 'inclist':
+                f1, f2 = g.fname('inc'), g.fname('inc')
+                g.files[f1] = '{c: ' + _call(g, t, 'call') + '}\n'
+                g.files[f2] = '{c2: ' + _call(g, 'U', 'call') + '}\n'
+                v = f'!include [{f1}, !unsafe {f2}]'
             elif fam == 'fstr':
                 own = g.tok(t)
                 v = '!fstr ' + emit.scalar_text("f'{" + dk + "}_" + own + "'")
@@ -189,6 +224,8 @@ def _gen_build(r, g, class_default):
     # materialise sources
     sources = []
     for si, st in enumerate(stages):
+        if r.random() < 0.6:
+            r.shuffle(st['items'])      # evaluation order follows key order: consumers before / after what they read
         text = '{' + ', '.join(f'{k}: {v}' for k, v in st['items']) + '}\n'
         kind = r.choice(['text', 'text', 'file', 'include', 'stream'])
         src = {'safe': st['safe'], 'taint': st['taint']}
